@@ -177,6 +177,11 @@ def mode_lifecycle(ct: Container, rep, rule="mode-lifecycle"):
             else:
                 rep.fail(rule, mod, f"Tdf.{f.name}", st, f"`{norm(st)}`: the access mode may only be set to 'rb' by __init__/__exit__ and to 'r+b' by allow_write()")
     rep.floor(rule, n, 3)
+    # write permission is granted by the caller only: no method of the class calls allow_write() itself
+    for f in tdf.all_funcs():
+        for c in walk_no_nested(f.node):
+            if isinstance(c, ast.Call) and isinstance(c.func, ast.Attribute) and c.func.attr == "allow_write":
+                rep.fail(rule, mod, f"Tdf.{f.name}", c, "the library grants itself write permission (allow_write() called inside the class): the returned/used object is writable without the caller having asked")
     # no other write-capable mode literal in instance methods of Tdf
     for f in tdf.all_funcs():
         if f.name in ("new",):
@@ -392,6 +397,20 @@ def guard_table(ct: Container, rep, rule="guard-table"):
             culprit = ct.prog.need_method(ct.tdf, "__exit__").node
             rep.fail(rule, mod, fq, ff.f.node, f"state (inside={s[0]}, mode={s[1]!r}, handle={s[2]}, allow_write since last exit={s[3]}) is reachable and lets {name} reach its file effects: {how}",
                      construct=f"{fq} reachable in {s}", detail={"table": table})
+    # no mutator opens its own (implicit) context: a mutation issued outside any context must be refused, not wrapped
+    for ff in [ct.facts(m) for m in MUTATORS] + [ct.facts(f.name, "setter") for f in ct.setters()]:
+        provides = [d for d in ff.f.decorators if d in wg and wg[d][1]]
+        guards = [d for d in ff.f.decorators if d in wg and wg[d][0] is not None]
+        nm = f"Tdf.{ff.f.name}" + (".setter" if ff.f.kind == "setter" else "")
+        n += 1
+        if provides:
+            bad_states = [s for s in states if not s[0] and s[1] != "rb"]
+            rep.fail(rule, mod, nm, ff.f.node, f"this mutator is wrapped by `{provides[0]}`: issued with no context after allow_write() (state {sorted(map(str, bad_states))[:1]}) it opens its own read-write context and changes the file instead of being refused",
+                     construct=f"{nm} decorated {provides[0]}")
+        elif not guards:
+            rep.fail(rule, mod, nm, ff.f.node, "this mutator has no context guard", construct=f"{nm} undecorated")
+        else:
+            rep.ok(rule, f"{nm}: guarded by {guards[0]}, opens no context of its own")
     # setters and replace_block reach effects only through add/remove (their own guards may only be stricter)
     for ff in [ct.facts("replace_block")] + [ct.facts(f.name, "setter") for f in ct.setters()]:
         direct = ff.ev(*M.FILE_EFFECTS)
